@@ -350,6 +350,25 @@ func envFilesOutcome(m map[string]string, err error) map[string]any {
 	return map[string]any{"ok": m}
 }
 
+// realRead: dotenv.ReadWithLookup on the same files (lookup function only; keys starting with a digit dropped)
+func realRead(a filesArgs) any {
+	dir := os.Getenv("VERIF_SCRATCH")
+	if dir == "" {
+		dir = os.TempDir()
+	}
+	var names []string
+	for i, c := range a.Files {
+		f := filepath.Join(dir, fmt.Sprintf("r-%d-%d.env", os.Getpid(), i))
+		if err := os.WriteFile(f, []byte(c), 0o600); err != nil {
+			return map[string]any{"bad": err.Error()}
+		}
+		defer os.Remove(f)
+		names = append(names, f)
+	}
+	m, err := dotenv.ReadWithLookup(lookupFn(a.Lookup), names...)
+	return envFilesOutcome(m, err)
+}
+
 // ---------------------------------------------------------------- registration
 
 func init() {
@@ -427,6 +446,23 @@ func init() {
 			}
 			if !core.CanonEqual(real, drv) {
 				return core.Disagree("Dotenv.fromFiles ≠ dotenv.GetEnvFromFile")
+			}
+			return nil
+		},
+	})
+	core.Register("readFiles", &core.CheckDef{
+		Real: func(raw json.RawMessage) any {
+			var a filesArgs
+			json.Unmarshal(raw, &a)
+			return realRead(a)
+		},
+		DriverOp: "readFiles",
+		Judge: func(args, real, drv json.RawMessage) *core.Verdict {
+			if v := core.CrashVerdict(real); v != nil {
+				return v
+			}
+			if !core.CanonEqual(real, drv) {
+				return core.Disagree("Dotenv.readFiles ≠ dotenv.ReadWithLookup")
 			}
 			return nil
 		},
@@ -912,6 +948,11 @@ func c18Files(ctx *core.Ctx) {
 			files = append(files, s)
 		}
 		ctx.Count(fmt.Sprintf("env-files-%d", nf))
-		ctx.Add("envFiles", filesArgs{Files: files, Lookup: genLookup(ctx)})
+		lk := genLookup(ctx)
+		ctx.Add("envFiles", filesArgs{Files: files, Lookup: lk})
+		if i%2 == 0 {
+			ctx.Count("read-files")
+			ctx.Add("readFiles", filesArgs{Files: files, Lookup: lk})
+		}
 	}
 }
